@@ -12,6 +12,9 @@ func H_C04(tbl, router, stage int) {
 	if stage == 3 {
 		pathCap = 8
 	}
+	if stage >= 10 {
+		stage, pathCap, maxSeg = vDeep(stage, pathCap, maxSeg)
+	}
 	q := vReq{method: "GET"}
 	q.path = nondetString("path", pathCap)
 	verifAssume(strings.Count(strings.Trim(q.path, "/"), "/") < maxSeg)
